@@ -201,37 +201,41 @@ struct Value {
     }
 
     Value &operator=(ValueType type) noexcept {
+        reset(); // The old payload goes with the old kind.
         setType(type);
         return *this;
     }
 
     Value &operator=(Value &&val) noexcept {
         if (this != &val) {
-            const ValueType type = val.Type();
+            // Take the source out first: it can be a member or an element of this value (v = Move(v[0])).
+            Value tmp{Memory::Move(val)};
 
-            val.setTypeToUndefined();
+            const ValueType type = tmp.Type();
+
+            tmp.setTypeToUndefined();
 
             reset();
             setType(type);
 
             switch (type) {
                 case ValueType::Object: {
-                    object_ = Memory::Move(val.object_);
+                    object_ = Memory::Move(tmp.object_);
                     break;
                 }
 
                 case ValueType::Array: {
-                    array_ = Memory::Move(val.array_);
+                    array_ = Memory::Move(tmp.array_);
                     break;
                 }
 
                 case ValueType::String: {
-                    string_ = Memory::Move(val.string_);
+                    string_ = Memory::Move(tmp.string_);
                     break;
                 }
 
                 default: {
-                    number_ = val.number_;
+                    number_ = tmp.number_;
                 }
             }
         }
@@ -241,15 +245,16 @@ struct Value {
 
     Value &operator=(const Value &val) {
         if (this != &val) {
-            reset();
-            copyValue(val);
+            // Copy first: the source can be a member or an element of this value (v = v["a"]), or contain it.
+            Value tmp{val};
+            *this = Memory::Move(tmp);
         }
 
         return *this;
     }
 
     void SetPointerToValue(const Value *val_ptr) {
-        reset();
+        Reset(); // A null pointer leaves an undefined value, not an empty one of the old kind.
 
         if (val_ptr != nullptr) {
             setTypeToPtrValue();
@@ -346,8 +351,10 @@ struct Value {
     }
 
     Value &operator=(const Char_T *str) {
+        StringT n_str{str}; // Copy first: str can point into this value's own string.
+
         reset();
-        string_ = StringT{str};
+        string_ = Memory::Move(n_str);
         setTypeToString();
 
         return *this;
@@ -1018,6 +1025,12 @@ struct Value {
     }
 
     void Merge(Value &&val) {
+        if (this == &val) {
+            // Merging a value into itself: work on a copy, the loop below grows the array it reads.
+            Merge(Value{val});
+            return;
+        }
+
         if (isUndefined()) {
             reset();
             setTypeToArray();
@@ -1042,6 +1055,11 @@ struct Value {
     }
 
     void Merge(const Value &val) {
+        if (this == &val) {
+            Merge(Value{val});
+            return;
+        }
+
         if (isUndefined()) {
             reset();
             setTypeToArray();
@@ -1753,7 +1771,18 @@ struct Value {
             }
 
             case QNumberType::Real: {
-                return QNumber64{SizeT64I(number.Real)}.Natural;
+                // A conversion outside the range of the target is undefined: NaN is 0, the rest saturates;
+                // a negative real keeps the two's complement reading it always had.
+                if (number.Real != number.Real) {
+                    return SizeT64{0};
+                }
+
+                if (number.Real < 0.0) {
+                    return ((number.Real <= -9223372036854775808.0) ? SizeT64{9223372036854775808ULL}
+                                                                    : QNumber64{SizeT64I(number.Real)}.Natural);
+                }
+
+                return ((number.Real >= 18446744073709551616.0) ? ~SizeT64{0} : SizeT64(number.Real));
             }
 
             default: {
@@ -1772,6 +1801,19 @@ struct Value {
             }
 
             case QNumberType::Real: {
+                // A conversion outside the range of the target is undefined: NaN is 0, the rest saturates.
+                if (number.Real != number.Real) {
+                    return SizeT64I{0};
+                }
+
+                if (number.Real >= 9223372036854775808.0) {
+                    return SizeT64I{9223372036854775807LL};
+                }
+
+                if (number.Real <= -9223372036854775808.0) {
+                    return (SizeT64I{-9223372036854775807LL} - 1);
+                }
+
                 return SizeT64I(number.Real);
             }
 
@@ -2356,7 +2398,8 @@ struct Value {
             }
 
             default: {
-                number_.Natural = SizeT64{0};
+                // A number or a pointer occupies the first word only; the next kind reads all of it (size, capacity).
+                Memory::Initialize(&array_);
             }
         }
     }
